@@ -51,7 +51,7 @@ pub fn run(ctx: &Ctx) -> Value {
                     match r { Ok(q) => { let m = wall_ns(q, off); let k = if sp > 0 { m.div_euclid(sp) } else { 0 }; json!({"k": big(k), "r": {"ok": ndt(q)}}) }
                               Err(e) => json!({"k": big(0), "r": {"err": e}}) } }));
                 n_round += 1;
-                if n_round % 4 == 0 { if let Ok(q) = run(z) { tw.emit(ev("idem", json!({"mode": mode, "u": ndt(z.naive_utc()), "off": off, "span": big(sp), "q": ndt(q.naive_utc())}), || { let again = run(q);
+                if n_round % 4 == 0 { if let Ok(Ok(q)) = crate::guard(|| run(z)) { tw.emit(ev("idem", json!({"mode": mode, "u": ndt(z.naive_utc()), "off": off, "span": big(sp), "q": ndt(q.naive_utc())}), || { let again = run(q);
                     json!({"same": again == Ok(q), "again": match again { Ok(a) => json!({"ok": ndt(a.naive_utc())}), Err(e) => json!({"err": format!("{:?}", e)}) }}) })); } }
             }
         }
